@@ -201,6 +201,19 @@ def check(rep, F, tier, replay=None):
                 rep.violation("SIB-dedup", "%s" % T, "%s::deduplicated_view de-duplicates with %s but deduplicated_clone with %s: the hashed / set-form list and the emitted witness list can differ in which elements they keep (e.g. two datums equal as values but with different preserved bytes)" % (T, sorted(H.short(x) for x in prim["deduplicated_view"]) or "nothing", sorted(H.short(x) for x in prim["deduplicated_clone"]) or "nothing"), {})
             elif not all("BTreeSet" in x for x in prim["deduplicated_view"]):
                 rep.violation("SIB-dedup", "%s|unordered" % T, "%s de-duplicates with %s instead of an ordered-set insert" % (T, sorted(prim["deduplicated_view"])), {})
+    # SIB-lang: languages are counted over the witnesses that are emitted
+    rep.rule("SIB-lang", "TxInputsBuilder::get_used_plutus_lang_versions and get_plutus_input_scripts judge a registered witness by the same condition - its input is still a script input of the builder (both read TxInputsBuilder.inputs): a witness left behind by an input that was added again as a key input contributes no script and therefore no language view")
+    a_ = find_fn(rep, F, "TxInputsBuilder::get_used_plutus_lang_versions")
+    b_ = find_fn(rep, F, "TxInputsBuilder::get_plutus_input_scripts")
+    if a_ and b_:
+        rep.inst("SIB-lang")
+        TIB_ = [x for x in F.adts if x.endswith("tx_inputs_builder::TxInputsBuilder")]
+        ra_ = {f for ad, f in fields_read(F, a_, depth=2) if ad in TIB_}
+        rb_ = {f for ad, f in fields_read(F, b_, depth=2) if ad in TIB_}
+        if "inputs" not in rb_ or "required_witnesses" not in rb_:
+            rep.lost("get_plutus_input_scripts no longer reads inputs and required_witnesses (%s)" % sorted(rb_))
+        elif "inputs" not in ra_:
+            rep.violation("SIB-lang", "TxInputsBuilder::get_used_plutus_lang_versions|inputs", "get_used_plutus_lang_versions walks required_witnesses only (%s) while get_plutus_input_scripts emits a witness only if its input is still a script input: input X added with a PlutusV2 witness and then again as a key input leaves V2 in the language views - script data hash 083d0024.. instead of c03335d2.. for the same emitted witness set" % sorted(ra_), {})
     # LV-order: canonical key order of the language views
     import hirq as H_
     rep.rule("LV-order", "Costmdls::language_views_encoding sorts the language keys with a comparator in which every comparison is ascending (left parameter on the left) - first the encoded key length, then the key itself: the ledger hashes the language views as a canonically ordered map (shorter key first, then bytewise)")
